@@ -20,7 +20,8 @@ Record xt := mkXT {
                                    block seen over the repeated renders of this table *)
   xt_sm : list (list string);   (* same for SQLModel *)
   xt_pyclass : string;       (* name of the table class in the SQLAlchemy output *)
-  xt_invalid : list string }.   (* O-C17's reports "invalid-<kind>:<name>" for the SeaORM declarations of this table *)
+  xt_invalid : list string;
+  xt_sm_text : list bool }.     (* per column, in order: does its SQLModel Field(...) line wrap the default in text("...")? *)   (* O-C17's reports "invalid-<kind>:<name>" for the SeaORM declarations of this table *)
 
 Record exp_case := mkXC { x_schema : schema; x_obs : list xt }.
 
@@ -39,12 +40,14 @@ Definition imports_check (model : list string) (impl : list (list string)) : boo
 
 Definition ascii_only (s : string) : bool := all_chars (fun a => negb (non_ascii a)) s.
 
-(* sub-checks: 1 SeaORM declarations, 2 SQLAlchemy import block, 3 SQLModel import block, 4 Python class name *)
+(* sub-checks: 1 SeaORM declarations, 2 SQLAlchemy import block, 3 SQLModel import block, 4 Python class name,
+   5 SQLModel: which columns wrap their default in text(...) *)
 Definition check_table (s : schema) (t : table_def) (o : xt) : list nat :=
   (if sea_check s t (xt_sea o) then [] else [1%nat])
   ++ (if imports_check (sqlalchemy_imports id_oracle id_oracle t) (xt_sa o) then [] else [2%nat])
   ++ (if imports_check (sqlmodel_imports id_oracle t) (xt_sm o) then [] else [3%nat])
-  ++ (if (negb (ascii_only (t_name t)) || String.eqb (py_pascal_case (t_name t)) (xt_pyclass o))%bool then [] else [4%nat]).
+  ++ (if (negb (ascii_only (t_name t)) || String.eqb (py_pascal_case (t_name t)) (xt_pyclass o))%bool then [] else [4%nat])
+  ++ (if list_eqb Bool.eqb (map sqlmodel_column_uses_text (t_columns t)) (xt_sm_text o) then [] else [5%nat]).
 
 Fixpoint check_tables (s : schema) (ts : list table_def) (os : list xt) (i : nat) : list nat :=
   match ts, os with
@@ -68,11 +71,11 @@ Fixpoint mismatches_from (i : nat) (cs : list exp_case) : list (nat * list nat) 
    0 known_C17_clash   1 known_C16_fk_cycle   2 known_C18_datetime (former class, fixed)   3 known_C18_slice_order
    4 fk_closed (hypothesis of refs_exist)   5 known_C17_py_ident   6 known_C17_py_dup
    7 known_C17_py_empty_import   8 known_C17_py_text   9 known_C17_py_sqlmodel_text
-   10 known_C17_rust_ident (on the names the oracle reported for the table) *)
+   10 known_C17_rust_ident (on the names the oracle reported for the table)   11 known_C17_py_sqlmodel_float_word *)
 Definition classify_table (s : schema) (t : table_def) (o : xt) : list bool :=
   [known_C17_clash s t; known_C16_fk_cycle s t; known_C18_datetime t; known_C18_slice_order s t;
    fk_closed s; known_C17_py_ident t; known_C17_py_dup t; known_C17_py_empty_import t; known_C17_py_text t;
-   known_C17_py_sqlmodel_text t; known_C17_rust_ident s t (xt_invalid o)].
+   known_C17_py_sqlmodel_text t; known_C17_rust_ident s t (xt_invalid o); known_C17_py_sqlmodel_float_word t].
 Definition classify_case (c : exp_case) : list (list bool) :=
   map (fun to => classify_table (x_schema c) (fst to) (snd to)) (combine (x_schema c) (x_obs c)).
 
